@@ -444,6 +444,7 @@ class Ctx:
             for it in items:
                 fn(it, self.tally)
             return
+        warm_hypothesis_constants()
         global _SHARD_FN
         _SHARD_FN = fn
         mp = multiprocessing.get_context("fork")
@@ -688,6 +689,18 @@ def preimport_library():
     import hypothesis.stateful  # noqa: F401
     import hypothesis.strategies  # noqa: F401
     import hypothesis.extra  # noqa: F401
+
+
+def warm_hypothesis_constants():
+    """Harvest Hypothesis's pool of local-module constants in the parent, before workers are forked: the workers inherit
+    the finished pool instead of racing each other on the cache files under the (private, per-run) storage directory.
+    Private API; if it disappears only reproducibility of class counts suffers, never soundness."""
+    try:
+        from hypothesis.internal.conjecture.providers import _get_local_constants
+
+        _get_local_constants()
+    except Exception:
+        pass
 
 
 def assert_library_location():
